@@ -151,8 +151,8 @@ def _cm_helpers(tree: ast.Module) -> dict[str, ast.FunctionDef]:
             continue
         y = tr.body[0]
         if not (isinstance(y, ast.Expr) and isinstance(y.value, ast.Yield)
-                and y.value.value is None):
-            continue
+                and (y.value.value is None or isinstance(y.value.value, ast.Name))):
+            continue       # `yield` or `yield <local>` (bound by `with H(..) as V`)
         if any(isinstance(x, (ast.Yield, ast.YieldFrom, ast.Return))
                for b in body[:-1] + tr.finalbody for x in ast.walk(b)):
             continue
@@ -169,7 +169,10 @@ class _InlineCM(ast.NodeTransformer):
 
     def visit_With(self, node: ast.With):      # noqa: N802
         self.generic_visit(node)
-        if len(node.items) != 1 or node.items[0].optional_vars is not None:
+        if len(node.items) != 1:
+            return node
+        as_var = node.items[0].optional_vars
+        if as_var is not None and not isinstance(as_var, ast.Name):
             return node
         call = node.items[0].context_expr
         if not (isinstance(call, ast.Call) and isinstance(call.func, ast.Name)
@@ -184,6 +187,14 @@ class _InlineCM(ast.NodeTransformer):
         body = [b for b in h.body if not (isinstance(b, ast.Expr)
                                           and isinstance(b.value, ast.Constant))]
         tr = body[-1]
+        yielded = tr.body[0].value.value        # type: ignore[attr-defined]
+        if (as_var is None) != (yielded is None) and as_var is not None:
+            return node     # `as V` on a helper that yields nothing: V is None, not modelled
+        if as_var is not None and isinstance(yielded, ast.Name):
+            if yielded.id in params:
+                return node
+            # the yielded local of the helper *is* the variable bound by `as`
+            ren[yielded.id] = as_var.id
         assigned = {t.id for b in body[:-1] + tr.finalbody for x in ast.walk(b)
                     if isinstance(x, ast.Name) and isinstance(x.ctx, ast.Store)
                     for t in [x]}
